@@ -812,9 +812,11 @@ theorem gx_runFrame (p : Prog) (hh : Hist) {s0 : St} {f : Frame} {rest : List Fr
     · exact quiet _ (by asame0) (fun a => by simp [queueH, hs, frameH])
     · split
       · rename_i e ex work _
-        have h1 := gx_despawn1 ({ s0 with stack := rest } : St) e hxp0
-        have h2 := gx_push (despawn1 ({ s0 with stack := rest } : St) e) [.despawnWork work]
-        exact via _ _ _ (GStep.trans h1 h2 (fun x hx => by simpa using hx)) (fun a => by simp [frameH])
+        split
+        · have h1 := gx_despawn1 ({ s0 with stack := rest } : St) e hxp0
+          have h2 := gx_push (despawn1 ({ s0 with stack := rest } : St) e) [.despawnWork work]
+          exact via _ _ _ (GStep.trans h1 h2 (fun x hx => by simpa using hx)) (fun a => by simp [frameH])
+        · exact quiet _ (by asame0) (fun a => by simp [queueH, hs, frameH, St.push])
       · split
         · exact quiet _ (by asame0) (fun a => by simp [queueH, hs, frameH, St.push])
         · exact quiet _ (by asame0) (fun a => by simp [queueH, hs, frameH, St.push])
